@@ -8,7 +8,7 @@ TECHNIQUE = "runtime monitoring: harness-side item table (window model) asserted
 RULE = ("(1) dedicated one-task workloads: n in 0..7 items, concurrency absent / literal 1..n+1 / expression / <= 0, all "
         "outcome vectors for n <= 3 (sampled beyond), every order of item reports for small n (sampled beyond), eager "
         "and lazy polls, pause(+resume)/cancel at every position; (2) with-items tasks embedded in generated dag/loop "
-        "definitions with retries; with-items tasks inside loops whose list is replaced between passes; the number of items and the concurrency limit are taken from the definition and the offered context (literal limits 0-3 or an expression, also <= 0), not from what the offer says about them; non-trivial = n >= 2 and effective concurrency < n; distinct = (definition, inputs, "
+        "definitions with retries; with-items tasks inside loops whose list is replaced and whose concurrency variable is lowered between passes; the number of items and the concurrency limit are taken from the definition and the offered context (literal limits 0-3 or an expression, also <= 0), not from what the offer says about them; non-trivial = n >= 2 and effective concurrency < n; distinct = (definition, inputs, "
         "history) digest")
 ASSUMPTIONS = ASSUME_SIM
 
